@@ -676,4 +676,44 @@ MUTANTS = [
     Mutant("fastq-offset", FASTQ, '"Illumina-1.8": 33', '"Illumina-1.8": 64', "R5.offset-table"),
     Mutant("genbank-shift-start", GB, "for i in range(index + 1, len(self._field_pos)):", "for i in range(index, len(self._field_pos)):",
            "R5.genbank-shift"),
+    # --- one seeded fault per remaining rule ---------------------------------
+    Mutant("fastq-key-normalised-late", FASTQ,
+           "        identifier = identifier.replace(\"\\n\", \"\").strip()\n        # Delete lines of entry corresponding to the identifier,\n        # if already existing\n        if identifier in self:\n            del self[identifier]\n",
+           "        # Delete lines of entry corresponding to the identifier,\n        # if already existing\n        if identifier in self:\n            del self[identifier]\n        identifier = identifier.replace(\"\\n\", \"\").strip()\n",
+           "R2.key-normalised-before-use", "FastqFile.__setitem__"),
+    Mutant("fasta-key-looked-up-raw", FASTA,
+           "        # The key must be the header as it is written into the file\n        header = header.replace(\"\\n\", \"\").strip()\n",
+           "        if header in self:\n            del self[header]\n        # The key must be the header as it is written into the file\n        header = header.replace(\"\\n\", \"\").strip()\n",
+           "R2.key-normalised-before-use", "FastaFile.__setitem__"),
+    Mutant("fasta-reindexer-keeps-marker", FASTA, "            header = self.lines[header_i[j]].strip()[1:]\n", "            header = self.lines[header_i[j]].strip()\n",
+           "R2.reindexer-strips-marker", "FastaFile._find_entries"),
+    Mutant("fastq-reindexer-keeps-marker", FASTQ, "                identifier = line[1:]\n                seq_start_i = i + 1\n", "                identifier = line\n                seq_start_i = i + 1\n",
+           "R2.reindexer-strips-marker", "FastqFile._find_entries"),
+    Mutant("fasta-write-iter-raw-header", FASTA, "                yield \">\" + header.replace(\"\\n\", \"\").strip()\n", "                yield \">\" + header\n",
+           "R2.write-iter-normalises", "FastaFile.write_iter"),
+    Mutant("fastq-write-iter-no-strip", FASTQ, "                yield \"@\" + identifier.replace(\"\\n\", \"\").strip()\n", "                yield \"@\" + identifier.replace(\"\\n\", \"\")\n",
+           "R2.write-iter-normalises", "FastqFile.write_iter"),
+    Mutant("genbank-writer-drops-beyond-right", GBA,
+           "        if loc.defect & Location.Defect.BEYOND_RIGHT:\n            loc_last_str = \">\" + loc_last_str\n", "", "R3.range-flags"),
+    Mutant("genbank-complement-forward", GBA, "            Location(loc.first, loc.last, Location.Strand.REVERSE, loc.defect)\n",
+           "            Location(loc.first, loc.last, Location.Strand.FORWARD, loc.defect)\n", "R3.strand"),
+    Mutant("genbank-writer-complement-forward", GBA, "        if loc.strand == Location.Strand.REVERSE:\n            loc_string = f\"complement({loc_string})\"\n",
+           "        if loc.strand == Location.Strand.FORWARD:\n            loc_string = f\"complement({loc_string})\"\n", "R3.strand"),
+    Mutant("genbank-qual-start-20", GBA, "_QUAL_START = 21\n", "_QUAL_START = 20\n", "R3.feature-columns"),
+    Mutant("gff-attribute-key-not-quoted", GFF, "                    quote(key, safe=_NOT_QUOTED) + \"=\" + quote(val, safe=_NOT_QUOTED)\n",
+           "                    key + \"=\" + quote(val, safe=_NOT_QUOTED)\n", "R4.attributes-quoted"),
+    Mutant("gff-attribute-key-not-unquoted", GFF, "            attrib_dict[unquote(key)] = unquote(val)\n", "            attrib_dict[key] = unquote(val)\n",
+           "R4.attributes-quoted"),
+    Mutant("gff-start-end-swapped", GFF, "                str(start),\n                str(end),\n", "                str(end),\n                str(start),\n",
+           "R4.column-order"),
+    Mutant("gff-score-placeholder-zero", GFF, "        score = str(score) if score is not None else \".\"\n", "        score = str(score) if score is not None else \"0\"\n",
+           "R4.placeholder"),
+    Mutant("gff-phase-dot-read-as-zero", GFF, "        phase = None if phase == \".\" else int(phase)\n", "        phase = 0 if phase == \".\" else int(phase)\n",
+           "R4.placeholder"),
+    Mutant("gff-type-default-safe-set", GFF, "        type = quote(type.strip(), safe=_NOT_QUOTED)\n", "        type = quote(type.strip())\n", "R4.quote-safe-set"),
+    Mutant("fastq-entry-tuple-swapped", FASTQ,
+           "                len(self.lines) + seq_stop_i,\n                len(self.lines) + score_start_i,\n",
+           "                len(self.lines) + score_start_i,\n                len(self.lines) + seq_stop_i,\n", "R5.entry-tuple-order"),
+    Mutant("fastq-read-adds-offset", FASTQ, "    scores -= offset\n", "    scores += offset\n", "R5.offset-sign"),
+    Mutant("fastq-write-subtracts-offset", FASTQ, "    scores = np.asarray(scores) + offset\n", "    scores = np.asarray(scores) - offset\n", "R5.offset-sign"),
 ]
